@@ -13,7 +13,7 @@ open KV KV.Wire
 def i16 (i : Int) : Bytes := encInt 2 i
 def i32 (i : Int) : Bytes := encInt 4 i
 def i64 (i : Int) : Bytes := encInt 8 i
-def str (s : String) : Bytes := i16 s.toUTF8.size ++ s.toUTF8.toList
+def str (s : String) : Bytes := let b := s.toUTF8.toList; i16 b.length ++ b
 def bytes (b : Bytes) : Bytes := i32 b.length ++ b
 def arr {α} (l : List α) (f : α → Bytes) : Bytes := i32 l.length ++ (l.map f).flatten
 
